@@ -286,6 +286,30 @@ theorem findAll_chain (needle text : Bytes) :
     exact range'_chain text.length (text.length + 1) 0 0 (Nat.le_refl _) (by omega) (Nat.zero_le _)
   · exact findAllFrom_chain needle 0 text 0 text.length (Nat.le_refl _) (by omega)
 
+
+theorem chain_mono (len : Nat) : ∀ (ms : Ranges) (a b : Nat), a ≤ b → Chain len b ms → Chain len a ms := by
+  intro ms
+  cases ms with
+  | nil => intro a b hab h; simp only [Chain] at *; omega
+  | cons m ms => intro a b hab h; obtain ⟨s, e⟩ := m; simp only [Chain] at *; exact ⟨by omega, h.2⟩
+
+/-- Dropping matches from a chain leaves a chain (used for the character-boundary filter of F15). -/
+theorem chain_sublist (len : Nat) : ∀ (ms' ms : Ranges) (from_ : Nat), List.Sublist ms' ms →
+    Chain len from_ ms → Chain len from_ ms' := by
+  intro ms' ms from_ hsub
+  induction hsub generalizing from_ with
+  | slnil => exact id
+  | cons a _ ih =>
+    intro h; obtain ⟨s, e⟩ := a; simp only [Chain] at h
+    exact ih from_ (chain_mono len _ from_ e (by omega) h.2.2)
+  | cons_cons a _ ih =>
+    intro h; obtain ⟨s, e⟩ := a; simp only [Chain] at h ⊢
+    exact ⟨h.1, h.2.1, ih e h.2.2⟩
+
+theorem findAll_filter_chain (needle text : Bytes) (p : Nat → Bool) :
+    Chain text.length 0 (((findAll needle text).filter p).map fun a => (a, a + needle.length)) :=
+  chain_sublist text.length _ _ 0 (List.Sublist.map _ List.filter_sublist) (findAll_chain needle text)
+
 /-! ### boundaries -/
 
 /-- Both ends of every range satisfy `P`. -/
@@ -518,7 +542,7 @@ theorem splitPattern_chain (ext : SplitExt) (hs : MatchesSane ext) (p : SplitPat
     subst h; exact findAll_chain _ text
   | string s =>
     simp only [splitPattern, Option.some.injEq] at h
-    subst h; exact findAll_chain s text
+    subst h; exact findAll_filter_chain s text _
   | regex p => exact hs p text ms h
 
 theorem split_ordered (ext : SplitExt) (hs : MatchesSane ext) (sp : Split) (text : Bytes) (out : Ranges)
